@@ -643,6 +643,7 @@ primaryexpr(struct scope *s)
 	struct type *t;
 	char *src, *end;
 	uint_least32_t chr;
+	bool hexoct;
 	int base;
 
 	switch (tok.kind) {
@@ -675,8 +676,13 @@ primaryexpr(struct scope *s)
 		}
 		assert(*src == '\'');
 		++src;
-		src += decodechar(src, &chr, NULL, "character constant", &tok.loc);
-		e = mkconstexpr(t, chr);
+		hexoct = false;
+		src += decodechar(src, &chr, &hexoct, "character constant", &tok.loc);
+		/* an unprefixed constant has the value of a char converted to int */
+		if (hexoct && tok.lit[0] == '\'' && targ->signedchar)
+			e = mkconstexpr(t, (signed char)chr);
+		else
+			e = mkconstexpr(t, chr);
 		if (*src != '\'')
 			error(&tok.loc, "character constant contains more than one character: %c", *src);
 		next();
